@@ -11,7 +11,42 @@ use margined_common::integer::Integer;
 use std::str::FromStr;
 use symrt::{prove_d, VAR_MAX};
 
+thread_local! {
+    /// operands of the binary-operation scenarios: symbolic magnitudes (default) or the concrete
+    /// boundary grid (code that inspects bits - leading zeros, shifts - cannot run on a symbolic
+    /// magnitude; on the grid it runs natively)
+    static GRID: std::cell::Cell<bool> = std::cell::Cell::new(false);
+}
+
+fn grid() -> Vec<(Integer, Integer, String)> {
+    let top = VAR_MAX - 1;
+    let ms = [0u128, 1, 2, 3, 1 << 32, (1 << 63) - 1, 1 << 63, (1 << 64) - 1, 1 << 64, (1 << 64) + 1, 1 << 96, (1 << 127) - 1, 1 << 127, (1 << 127) + 1, top - 1, top];
+    let mut v = vec![];
+    for a in ms {
+        for b in ms {
+            for na in [false, true] {
+                for nb in [false, true] {
+                    v.push((Integer { value: Uint128::new(a), negative: na }, Integer { value: Uint128::new(b), negative: nb }, format!("signs({},{}) a={} b={}", na as u8, nb as u8, a, b)));
+                }
+            }
+        }
+    }
+    v
+}
+
+fn arith_boundaries() {
+    GRID.with(|g| g.set(true));
+    mul();
+    div();
+    addsub();
+    cmp();
+    GRID.with(|g| g.set(false));
+}
+
 fn operands() -> Vec<(Integer, Integer, String)> {
+    if GRID.with(|g| g.get()) {
+        return grid();
+    }
     let a = var("a", 0, VAR_MAX, 300);
     let b = var("b", 0, VAR_MAX, 7);
     let mut v = vec![];
@@ -177,6 +212,7 @@ pub fn scenarios(_seed: u64) -> Vec<Scenario> {
         sc("C19", Tier::Quick, "c19.addsub", d, 4000, 120, addsub),
         sc("C19", Tier::Quick, "c19.cmp", d, 2000, 120, cmp),
         sc("C19", Tier::Quick, "c19.unary_string", "magnitude symbolic, both signs: negation, abs, constructors, Display/FromStr/serde round trip", 2000, 120, unary_string),
+        sc("C19", Tier::Quick, "c19.arith.boundaries", "mul, div, add, sub, cmp on the concrete grid of 16 boundary magnitudes (0..3, 2^32, 2^63, 2^64 +-1, 2^96, 2^127 +-1, top of the range) squared, all sign combinations", 10, 120, arith_boundaries),
         sc("C19", Tier::Quick, "c19.unary_string.boundaries", "the same on concrete boundary magnitudes (0, 1, 2^63, 2^64, 2^127 +-1, top of the range), both signs", 10, 60, unary_string_boundaries),
     ]
 }
